@@ -215,8 +215,13 @@ func runC05(c *vc.Ctx) error {
 		fmt.Printf("C05: segment size %d: %d histories, %d images, %d continuations, %d reopen executions so far, %.1fs\n", seg, len(idx), nItems, nConts, c.Ev.Evals(), time.Since(t0).Seconds())
 	}
 	c.Ev.Set("exhaustive_tail_offsets", c.Thorough() && c.Ev.Counter("regions_sampled_below_cap") == 0 && c.Ev.Counter("regions_all_offsets") > 0)
-	c.Ev.Set("exhaustive_tail_offsets_scope", fmt.Sprintf("thorough tier: every byte offset of the unsynced region is a truncation point for every call of every eighth history and 5%% of the calls of the other histories (regions.thorough; regions of more than %d bytes, i.e. entries of 128 KiB / 1 MiB, are sampled); elsewhere and in the quick tier: every offset of the last two records + 64 sampled (regions.quick) or frame/sector boundaries +-1 and 24 sampled offsets (regions.light)", e.exhaustCap))
+	c.Ev.Set("exhaustive_tail_offsets_scope", fmt.Sprintf("thorough tier: every byte offset of the unsynced region is a truncation point for every call of every sixteenth history and 3%% of the calls of the other histories (regions.thorough; regions of more than %d bytes, i.e. entries of 128 KiB / 1 MiB, are sampled); elsewhere and in the quick tier: every offset of the last two records + 64 sampled (regions.quick) or frame/sector boundaries +-1 and 24 sampled offsets (regions.light)", e.exhaustCap))
 	c.Ev.Set("scratch_on_shm", e.base != c.Scratch)
+	if bad, all := c.Ev.Counter("histories_not_executable"), c.Ev.Counter("histories"); bad*10 > all {
+		// e.g. the WAL cannot be reopened after a clean Close: loud, hence admissible
+		// for every single image, but then the histories were not exercised
+		return fmt.Errorf("%d of %d histories could not be executed to their end (live WAL failed): too little was exercised", bad, all)
+	}
 	return nil
 }
 
